@@ -366,22 +366,10 @@ FastForward
 // hashgraph from a Block and associated Frame.
 func (c *core) fastForward(block *hg.Block, frame *hg.Frame) error {
 	c.logger.Debug("Fast Forward", frame.Round)
-	peerSet := peers.NewPeerSet(frame.Peers)
 
-	// Check Block Signatures
-	err := c.hg.CheckBlock(block, peerSet)
+	err := c.checkFastForward(block, frame)
 	if err != nil {
 		return err
-	}
-
-	// Check Frame Hash
-	frameHash, err := frame.Hash()
-	if err != nil {
-		return err
-	}
-
-	if !reflect.DeepEqual(block.FrameHash(), frameHash) {
-		return fmt.Errorf("Invalid Frame Hash")
 	}
 
 	err = c.hg.Reset(block, frame)
@@ -411,6 +399,32 @@ func (c *core) fastForward(block *hg.Block, frame *hg.Frame) error {
 		c.validators = peers.NewPeerSet(frame.PeerSets[latestRound])
 	} else {
 		c.validators = peers.NewPeerSet(frame.Peers)
+	}
+
+	return nil
+}
+
+// checkFastForward verifies that a Block and the associated Frame may be used
+// to reset the hashgraph, without modifying anything: the Block must carry
+// enough valid signatures from the Frame's peer-set, and the Frame must hash to
+// the Block's frame hash.
+func (c *core) checkFastForward(block *hg.Block, frame *hg.Frame) error {
+	peerSet := peers.NewPeerSet(frame.Peers)
+
+	// Check Block Signatures
+	err := c.hg.CheckBlock(block, peerSet)
+	if err != nil {
+		return err
+	}
+
+	// Check Frame Hash
+	frameHash, err := frame.Hash()
+	if err != nil {
+		return err
+	}
+
+	if !reflect.DeepEqual(block.FrameHash(), frameHash) {
+		return fmt.Errorf("Invalid Frame Hash")
 	}
 
 	return nil
